@@ -213,46 +213,15 @@ def unit_post_collect(S):
                 what="gae_lambda and gamma handed to the callee are the algorithm's own")
 
 
-def native_constructor_replay(algo_name):
-    """R1: the real constructor with edge and interior values of the two discount parameters (the counter-model's own first): the stored fields are the arguments."""
-    def replay(model):
-        from lerax.algorithm import REINFORCE
-        cls = {"PPO": PPO, "A2C": A2C, "REINFORCE": REINFORCE}[algo_name]
-        vals = [0.0, 1.0, 0.5, 0.95, 1e-3]
-        try:
-            vals = [kit.model_float(model, "gae_lambda", 0.0)] + vals
-        except Exception:
-            pass
-        for lam in vals:
-            for g in (0.0, 1.0, 0.9):
-                kw = dict(gamma=g) if algo_name == "REINFORCE" else dict(gamma=g, gae_lambda=lam)
-                a = cls(**kw)
-                want = (1.0 if algo_name == "REINFORCE" else float(lam), float(g))
-                got = (float(a.gae_lambda), float(a.gamma))
-                if got != want:
-                    return dict(reproduced=True, route=f"R1 (real {algo_name} constructor)", inputs=kw, observed=dict(stored_gae_lambda=got[0], stored_gamma=got[1]))
-        return dict(reproduced=False, note="constructor stores gamma and gae_lambda unchanged for 0, 1 and interior values")
-    return replay
-
-
 def unit_constructor(S):
-    """The discount parameters the recurrence is run with are the ones the user configured: the constructor stores gamma and gae_lambda unchanged for EVERY real value (0 and 1
-    included - a `value or default` normalisation fails at 0), so post_collect (unit post_collect) hands the callee the configured values."""
+    """The discount parameters the recurrence is run with are the ones the user configured: the constructor stores gamma and gae_lambda unchanged for EVERY real value it accepts (0
+    and 1 included - a `value or default` normalisation fails at 0), so post_collect (unit post_collect) hands the callee the configured values.  Shared contract: contracts/_ctor.py"""
+    from contracts import _ctor
     from lerax.algorithm import REINFORCE
-    for algo_name, cls, has_lambda in (("PPO", PPO, True), ("A2C", A2C, True), ("REINFORCE", REINFORCE, False)):
-        fn = f"lerax.algorithm:{algo_name}.__init__"
-        S.under_contract(fn)
-        ctx = Ctx()
-        g, gc = kit.real_scalar("gamma")
-        lam, lamc = kit.real_scalar("gae_lambda")
-
-        def prog(gg, ll, cls=cls, has_lambda=has_lambda):
-            a = cls(gamma=gg, gae_lambda=ll) if has_lambda else cls(gamma=gg)
-            return jnp.asarray(a.gamma, jnp.float32), jnp.asarray(a.gae_lambda, jnp.float32)
-        og, ol = run(ctx, prog, g, lam)
-        S.prove(f"{algo_name}.__init__/stores-gamma-and-lambda", ctx, sand(ir.seq(og.scalar(), gc), ir.seq(ol.scalar(), lamc if has_lambda else z3.RealVal(1))), function=fn,
-                replay=native_constructor_replay(algo_name),
-                what="for every real gamma, gae_lambda: the constructed algorithm's gamma / gae_lambda fields are the arguments" + ("" if has_lambda else " (REINFORCE: lambda fixed to 1, Monte-Carlo returns)"))
+    _ctor.unit_constructor([(PPO, {}, ("gamma", "gae_lambda")), (A2C, {}, ("gamma", "gae_lambda")), (REINFORCE, {}, ("gamma",))])(S)
+    lam = [float(REINFORCE(gamma=g).gae_lambda) for g in (0.0, 0.5, 1.0)]
+    S.fact("REINFORCE.__init__/lambda-is-one", lam == [1.0, 1.0, 1.0], function="lerax.algorithm:REINFORCE.__init__", shape=False, what="REINFORCE runs the recurrence with lambda = 1 (Monte-Carlo returns) whatever gamma",
+           detail=lam, replay=lambda m: dict(reproduced=lam != [1.0, 1.0, 1.0], route="R1 (real REINFORCE constructor)", observed=dict(gae_lambda=lam)))
 
 
 UNITS = [("gae", unit_gae), ("lemmas", unit_lemmas), ("post_collect", unit_post_collect), ("constructor", unit_constructor)]
